@@ -10,7 +10,7 @@ open VgiVerif.C05 VgiVerif.Gen.C05
 /-- the tree before `fix: a request naming an unusable shared-memory segment …` and `fix: a request the server could not decode …` -/
 def pinned : Tables :=
   { Tables.gen with attachGuard := [], pointerGuard := [], releaseGuard := [], traceDecode := [], asPyGuard := [],
-                    firstRead := [], drainSkips := [], firstReadDrains := false }
+                    firstRead := [], drainSkips := [], firstReadDrains := false, firstDrainSkips := [], firstDrainEnds := [] }
 
 /-- a plain valid `add(1, 2)` -/
 def valid : Req :=
